@@ -324,6 +324,8 @@ class Engine:
             return z3.Not(self.ctx.set_is_empty(t.args[0], sv.z['dom']))
         if t.k == 'str':
             return z3.Length(sv.z) > 0
+        if t.k == 'pylist':
+            return z3.BoolVal(bool(sv.z))
         raise Unsupported(f'truthiness of {t}')
 
     def boolsv(self, z):
@@ -470,7 +472,7 @@ class Engine:
 
 
 # --------------------------------------------------------------------------- expression evaluator
-SPEC_FUNCS = {'some', 'exc_is', 'sadd', 'sdel', 'forall', 'exists', 'implies', 'iff', 'old', 'card', 'dom', 'ite', 'empty', 'INV', 'subset', 'disjoint',
+SPEC_FUNCS = {'contains', 'some', 'exc_is', 'sadd', 'sdel', 'forall', 'exists', 'implies', 'iff', 'old', 'card', 'dom', 'ite', 'empty', 'INV', 'subset', 'disjoint',
               'fresh_of', 'keys', 'isnone', 'some', 'unopt', 'select', 'tuple_of', 'typed_empty'}
 
 
@@ -561,6 +563,8 @@ class Evaluator:
         return SV(TUP(*[p.t for p in parts]), tuple(p.z for p in parts))
 
     def ev_List(self, n):
+        if n.elts and getattr(self.eng.cur, 'pylists', False):
+            return SV(T('pylist'), [self.ev(e) for e in n.elts])
         return self._set_literal(n.elts, 'list')
 
     def ev_Set(self, n):
@@ -594,6 +598,17 @@ class Evaluator:
 
     # -- attribute / subscript
     def ev_Attribute(self, n):
+        dotted = None
+        try:
+            dotted = ast.unparse(n)
+        except Exception:
+            pass
+        if dotted in getattr(self.R, 'const_exprs', {}):
+            root = n
+            while isinstance(root, ast.Attribute):
+                root = root.value
+            if isinstance(root, ast.Name) and not self.st.has(root.id):
+                return self.eng.eval_spec_in(self.st, self.R.const_exprs[dotted], {}, heap=self.heap)
         # enum member  FState.PENDING
         if isinstance(n.value, ast.Name) and n.value.id in self.R.enums and not self.st.has(n.value.id):
             en = n.value.id
@@ -734,6 +749,8 @@ class Evaluator:
                 return SV(a.t, self.ctx.set_diff(et, a.z, b.z))
         if a.t.k == 'str' and b.t.k == 'str' and op == 'Add':
             return SV(STR, z3.Concat(a.z, b.z))
+        if op == 'Div' and a.t == U('Path') and b.t.k == 'str':
+            return self.eng.apply_func('pjoin', [a, b], U('Path'), [U('Path'), STR])
         raise Unsupported(f'binary {op} on {a.t}, {b.t}')
 
     def ev_Compare(self, n):
@@ -799,6 +816,20 @@ class Evaluator:
             raise Unsupported('membership test on defaultdict(set)')
         if t.k == 'emptycoll':
             return z3.BoolVal(False)
+        if t.k == 'pylist':
+            ds = []
+            for e in coll.z:
+                try:
+                    a, b = self.eng.unify(x, e)
+                    ds.append(self.ctx.eq(a.t, a.z, b.z))
+                except Unsupported:
+                    pass
+            return z3.Or(ds) if ds else z3.BoolVal(False)
+        if t.k == 'str' and x.t.k == 'str':
+            return z3.Contains(coll.z, x.z)
+        if t.k == 'str' and x.t.k == 'opt' and x.t.args[0].k == 'str':
+            self.may_raise.append((z3.Not(x.z['none']), 'TypeError', 'None in str'))
+            return z3.Contains(coll.z, x.z['v'])
         raise Unsupported(f'membership in {t}')
 
     # -- comprehensions
@@ -835,7 +866,7 @@ class Evaluator:
         elt_probe = pe.ev(n.elt)
         pe.may_raise = saved
         et = elt_probe.t
-        if et.k not in ('u', 'int', 'bool'):
+        if et.k not in ('u', 'int', 'bool', 'str'):
             raise Unsupported(f'comprehension element type {et}')
         pred = None
         if et == dom_t and z3.eq(elt_probe.z, probe_k):
@@ -1056,6 +1087,11 @@ class CallEval:
         raise Unsupported('call form')
 
     # ---- spec functions
+    def fn_contains(self, n):
+        a = self.e.ev(n.args[0])
+        b = self.e.ev(n.args[1])
+        return SV(BOOL, z3.Contains(a.z, b.z))
+
     def fn_some(self, n):
         v = self.e.ev(n.args[0])
         return SV(OPT(v.t), {'none': z3.BoolVal(False), 'v': v.z})
